@@ -1,6 +1,7 @@
 package wsx
 
 import (
+	"verifharness/internal/core"
 	"bytes"
 	"encoding/hex"
 	"fmt"
@@ -201,7 +202,7 @@ func newFixture(users []User) (*Fixture, error) {
 	// instead would make that goroutine write Start()'s shared `err` variable while
 	// connection handlers write it too - a race report that says nothing about this property.
 	tlsPort := 0
-	if pl, err := net.Listen("tcp4", "127.0.0.1:0"); err == nil {
+	if pl, err := core.ListenLoopback("tcp4"); err == nil {
 		tlsPort = pl.Addr().(*net.TCPAddr).Port
 		pl.Close()
 	}
